@@ -458,7 +458,7 @@ func init() {
 				}
 			}
 			// (f) other messages compiled at the same time by other goroutines: each message keeps the id it has alone
-			if i%24 == 0 {
+			if i%23 == 0 {
 				const nMsgs = 12
 				srcs := make([]string, nMsgs)
 				alone := make([]c10Obs, nMsgs)
